@@ -497,7 +497,7 @@ func runCoreScripted(seed uint64, n int, out *Out) {
 			m := c.market(2)
 			c.deposit(m, 1, 10000)
 			c.wager(m, 6, 0, "2", 1001)
-			c.wager(m, 7, 1, "3", 501)
+			c.wager(m, 7, 1, "10", 501)
 			c.endBlock()
 			c.resolve(m, 5, 1)
 			c.endBlock()
